@@ -87,6 +87,25 @@ Lemma C18_def_gap_old_refuted :
   text_ctx_with true false (utf8_decode "def  test_new(db, ") 1 = Some (CSig "test_new" 1 false ["db"] None).
 Proof. split; vm_compute; reflexivity. Qed.
 
+(** a [pytest_asyncio.fixture] decorator above the header counts as a fixture decorator (since fix
+    1e3dfbe; the analyzer has always recognised it): the signature of such a fixture gets its context
+    while it is being typed *)
+Lemma C18_asyncio_decorator_old_refuted :
+  has_fixture_decorator_above_old [utf8_decode "@pytest_asyncio.fixture"] = false /\
+  has_fixture_decorator_above [utf8_decode "@pytest_asyncio.fixture"] = true /\
+  text_ctx_with true false (utf8_decode "@pytest_asyncio.fixture(scope=""module"")
+async def fx_new(db, ") 2 = Some (CSig "fx_new" 2 true ["db"] (Some 2)).
+Proof. repeat split; vm_compute; reflexivity. Qed.
+
+(** the scope read from the decorator text is that of the [scope=] keyword itself, not of a
+    longer keyword ending in it (since fix 7721f5d): pytest-asyncio's [loop_scope="session"] leaves
+    the fixture function-scoped *)
+Lemma C18_loop_scope_old_refuted :
+  scope_from_text_old [utf8_decode "@pytest_asyncio.fixture(loop_scope=""session"")"] = Some 4 /\
+  scope_from_text [utf8_decode "@pytest_asyncio.fixture(loop_scope=""session"")"] = None /\
+  scope_from_text [utf8_decode "@pytest_asyncio.fixture(loop_scope=""session"", scope=""module"")"] = Some 2.
+Proof. repeat split; vm_compute; reflexivity. Qed.
+
 (** the parameters typed so far, on an instance *)
 Example C18_declared_from_text_example :
   declared_from_text [utf8_decode "    def test_x(db, client: int = 3, *, cfg"] = ["db"; "client"; "cfg"].
